@@ -1,4 +1,7 @@
-use std::{collections::HashMap, rc::Rc};
+use std::{
+    collections::{BTreeSet, HashMap},
+    rc::Rc,
+};
 
 use swc_common::Span;
 use swc_ecma_ast::{Expr, TsEnumDecl, TsInterfaceDecl, TsType, TsTypeAliasDecl};
@@ -124,10 +127,25 @@ impl SymbolsExportsModule {
         name: &String,
         files: &mut R,
     ) -> Option<Rc<SymbolExport>> {
+        self.get_value_visiting(name, files, &mut BTreeSet::new())
+    }
+
+    // `export * from` chains may be cyclic (a.ts <-> b.ts): visit every file once.
+    fn get_value_visiting<R: FileManager>(
+        &self,
+        name: &String,
+        files: &mut R,
+        visited: &mut BTreeSet<BffFileName>,
+    ) -> Option<Rc<SymbolExport>> {
         let known = self.named_values.get(name).cloned().or_else(|| {
             for it in &self.extends {
+                if !visited.insert(it.clone()) {
+                    continue;
+                }
                 let file = files.get_or_fetch_file(it)?;
-                let res = file.symbol_exports.get_value(name, files);
+                let res = file
+                    .symbol_exports
+                    .get_value_visiting(name, files, visited);
                 if let Some(it) = res {
                     return Some(it.clone());
                 }
@@ -159,10 +177,25 @@ impl SymbolsExportsModule {
         name: &String,
         files: &mut R,
     ) -> Option<Rc<SymbolExport>> {
+        self.get_type_visiting(name, files, &mut BTreeSet::new())
+    }
+
+    // `export * from` chains may be cyclic (a.ts <-> b.ts): visit every file once.
+    fn get_type_visiting<R: FileManager>(
+        &self,
+        name: &String,
+        files: &mut R,
+        visited: &mut BTreeSet<BffFileName>,
+    ) -> Option<Rc<SymbolExport>> {
         let known = self.named_types.get(name).cloned().or_else(|| {
             for it in &self.extends {
+                if !visited.insert(it.clone()) {
+                    continue;
+                }
                 let file = files.get_or_fetch_file(it)?;
-                let res = file.symbol_exports.get_type(name, files);
+                let res = file
+                    .symbol_exports
+                    .get_type_visiting(name, files, visited);
                 if let Some(it) = res {
                     return Some(it.clone());
                 }
